@@ -28,7 +28,7 @@ func init() {
 	register(&PropertyDef{
 		ID:    "C04",
 		Title: "Group state depends only on the set of log entries (convergence, restart)",
-		Explanation: "Decides, on the type-checked SSA of every module implementation of go-orbit-db's StoreIndex.UpdateIndex that walks log entries: " +
+		Explanation: "Decides, on the type-checked SSA of every module implementation of go-orbit-db's StoreIndex.UpdateIndex that walks log entries (the per-entry body, the reset block and the post-index loop may each live in a helper that UpdateIndex calls, up to three calls deep; a return from a per-entry helper counts as moving on to the next entry): " +
 			"(D1) the entry sequence the index loop walks is the log's deterministic clock-sorted traversal (Log.Values() of the log being indexed, possibly through Slice/Copy/Reverse or a module helper), not the insertion-ordered entry map (GetEntries/RawHeads: Join inserts a replicated batch heads-first, so the order depends on how the entries arrived), not the heads alone and not only the newly added entries; " +
 			"(D2) the loop visits every element of that sequence (start, bound, stride 1) and its direction agrees with the winner policy of the handlers: handlers that keep the first event seen about a subject need a newest-first walk, handlers that overwrite need an oldest-first walk, and all per-subject fields must use the same policy; " +
 			"(D3) re-index idempotence: every field of the index struct written by a handler or post-index action is either assigned a fresh value in UpdateIndex before the loop (or cleared after it on every success path), or is written only in ways that repeat harmlessly: inserts into maps whose key type has value semantics (a key of pointer type, or of an interface type whose implementations are pointers, has identity semantics and a re-decoded key is a new member each time), accumulating writes (append to / arithmetic on the field's own content) only under a dominating 'already present' test on a never-reset value-keyed set the same code inserts into, no keep-the-first-value register fed by several write sites (or a scalar one) without reset, and an 'already there' test protecting an insert into never-reset state must be the presence test of the very key the protected code records in the tested set (a test of the set's size, of nil-ness or of another key makes the kept subject depend on what this index instance saw first); " +
@@ -45,7 +45,7 @@ func init() {
 		Borrows: []Borrow{
 			{From: "C07", Rules: []string{"D7"}, Why: "the state is a function of the whole entry set only if the index scan visits every entry: leaving the scan loop early (break / return nil on an unknown type, an undecodable entry or a handler error) makes the state depend on what happens to lie newer than the entry that stopped it"},
 		},
-		Run:         runC04,
+		Run: runC04,
 	})
 }
 
@@ -209,6 +209,8 @@ type c04Index struct {
 	writes     []*c04Write
 	guardMemo  map[*ssa.Function][]c04GuardEdge
 	loopSites  []c04LoopSite
+	dispatchIn map[*ssa.Function][]ssa.CallInstruction // function -> callback invocations it contains
+	leads      map[*ssa.Function]bool                  // helper of UpdateIndex from which a callback invocation is reached
 }
 
 type c04LoopSite struct {
@@ -1376,42 +1378,72 @@ func (ix *c04Index) run() bool {
 	}
 	ix.loops = c04Loops(upd)
 	// callback invocations and static module callees of UpdateIndex
+	// (a callback may be invoked by UpdateIndex itself or by a helper it calls: the per-entry
+	// body, the reset block and the post-index loop may each have been extracted; "top" is the
+	// instruction of UpdateIndex through which a site is reached and decides its phase)
 	type site struct {
 		ci    ssa.CallInstruction
+		top   ssa.CallInstruction
 		field int
 		dyn   bool
 		fn    *ssa.Function
 	}
 	var sites []site
-	for _, b := range upd.Blocks {
-		for _, in := range b.Instrs {
-			ci, ok := in.(ssa.CallInstruction)
-			if !ok {
-				continue
-			}
-			cc := ci.Common()
-			if cc.IsInvoke() {
-				continue
-			}
-			if cal := staticCallee(cc); cal != nil {
-				if inModule(cal) && cal.Blocks != nil {
-					sites = append(sites, site{ci: ci, fn: cal})
+	ix.dispatchIn = map[*ssa.Function][]ssa.CallInstruction{}
+	ix.leads = map[*ssa.Function]bool{}
+	var scan func(fn *ssa.Function, top ssa.CallInstruction, depth int, onPath map[*ssa.Function]bool) bool
+	scan = func(fn *ssa.Function, top ssa.CallInstruction, depth int, onPath map[*ssa.Function]bool) bool {
+		found := false
+		for _, b := range fn.Blocks {
+			for _, in := range b.Instrs {
+				ci, ok := in.(ssa.CallInstruction)
+				if !ok {
+					continue
 				}
-				continue
-			}
-			if _, isB := cc.Value.(*ssa.Builtin); isB {
-				continue
-			}
-			if f, _, _, ok := ix.rootField(cc.Value); ok {
-				sites = append(sites, site{ci: ci, field: f, dyn: true})
+				cc := ci.Common()
+				if cc.IsInvoke() {
+					continue
+				}
+				t := top
+				if fn == upd {
+					t = ci
+				}
+				if cal := staticCallee(cc); cal != nil {
+					if !inModule(cal) || cal.Blocks == nil {
+						continue
+					}
+					if fn == upd {
+						sites = append(sites, site{ci: ci, top: ci, fn: cal})
+					}
+					if depth < 3 && !onPath[cal] {
+						onPath[cal] = true
+						if scan(cal, t, depth+1, onPath) {
+							ix.leads[cal] = true
+							found = true
+						}
+						delete(onPath, cal)
+					}
+					continue
+				}
+				if _, isB := cc.Value.(*ssa.Builtin); isB {
+					continue
+				}
+				if f, _, _, ok := ix.rootField(cc.Value); ok {
+					sites = append(sites, site{ci: ci, top: t, field: f, dyn: true})
+					ix.dispatchIn[fn] = append(ix.dispatchIn[fn], ci)
+					found = true
+				}
 			}
 		}
+		return found
 	}
-	// the entry loop: an indexed walk over a slice of log entries whose element reaches a callback
+	scan(upd, nil, 0, map[*ssa.Function]bool{upd: true})
+	// the entry loop: an indexed walk over a slice of log entries whose element reaches a
+	// callback, directly or as an argument of a helper that invokes the callbacks
 	var dynArgsTainted = func(seed ssa.Value) bool {
 		t := taintFrom(upd, seed)
 		for _, s := range sites {
-			if !s.dyn {
+			if s.ci != s.top || (!s.dyn && !ix.leads[s.fn]) {
 				continue
 			}
 			for _, a := range s.ci.Common().Args {
@@ -1525,8 +1557,8 @@ func (ix *c04Index) run() bool {
 		ix.roots = append(ix.roots, c04Root{Fn: fn, Phase: phase, Via: via})
 	}
 	for _, s := range sites {
-		ph := phaseOfBlock(s.ci.Block())
-		if ph == "loop" {
+		ph := phaseOfBlock(s.top.Block())
+		if ph == "loop" && s.ci == s.top {
 			ix.loopSites = append(ix.loopSites, c04LoopSite{Instr: s.ci, Dyn: s.dyn, Fn: s.fn})
 		}
 		if s.dyn {
@@ -2168,88 +2200,129 @@ func (ix *c04Index) ruleD6() {
 	}
 	sort.Strings(resetWritten)
 	n := 0
-	for _, b := range upd.Blocks {
-		if !loop.Body[b] {
-			continue
+	// a scope is the per-entry code: the body of the entry loop in UpdateIndex, or the body of a
+	// helper the loop calls for each entry (there, returning is "next entry")
+	type scope struct {
+		fn       *ssa.Function
+		in       func(*ssa.BasicBlock) bool
+		next     func(*ssa.BasicBlock) bool // reaching this block ends the treatment of the entry
+		handlers map[*ssa.BasicBlock]bool
+	}
+	scopes := []scope{{fn: upd, in: func(b *ssa.BasicBlock) bool { return loop.Body[b] }, next: func(b *ssa.BasicBlock) bool { return b == loop.Header }, handlers: handlerBlocks}}
+	seenScope := map[*ssa.Function]bool{upd: true}
+	var addHelper func(fn *ssa.Function, depth int)
+	addHelper = func(fn *ssa.Function, depth int) {
+		if seenScope[fn] || !ix.leads[fn] || depth > 3 {
+			return
 		}
-		for _, in := range b.Instrs {
-			l, ok := in.(*ssa.Lookup)
-			if !ok || !l.CommaOk {
+		seenScope[fn] = true
+		hb := map[*ssa.BasicBlock]bool{}
+		for _, ci := range ix.dispatchIn[fn] {
+			hb[ci.Block()] = true
+		}
+		for _, e := range ix.w.callGraph().callees[fn] {
+			if ix.leads[e.Callee] {
+				hb[e.Site.Block()] = true
+				addHelper(e.Callee, depth+1)
+			}
+		}
+		scopes = append(scopes, scope{fn: fn, in: func(*ssa.BasicBlock) bool { return true }, next: func(b *ssa.BasicBlock) bool {
+			_, isRet := b.Instrs[len(b.Instrs)-1].(*ssa.Return)
+			return isRet
+		}, handlers: hb})
+	}
+	for _, s := range ix.loopSites {
+		if !s.Dyn {
+			addHelper(s.Fn, 1)
+		}
+	}
+	for _, sc := range scopes {
+		for _, b := range sc.fn.Blocks {
+			if !sc.in(b) {
 				continue
 			}
-			f, _, _, ok := ix.rootField(l.X)
-			if !ok {
-				continue
-			}
-			if _, isCB := ix.cbFields[f]; isCB {
-				continue // the dispatch table, not a record of what was seen
-			}
-			for _, okv := range extractsOf(l, 1) {
-				ve := edgesOfVerdict(okv)
-				// does the "present" side get back to the loop header without running a handler?
-				// the "present" side goes back to the loop header and cannot run a handler on the way
-				skips := false
-				var skipIf *ssa.BasicBlock
-				for _, e := range ve.Accept {
-					seen := map[*ssa.BasicBlock]bool{}
-					stack := []*ssa.BasicBlock{e.To}
-					back, handler := false, false
-					for len(stack) > 0 {
-						x := stack[len(stack)-1]
-						stack = stack[:len(stack)-1]
-						if seen[x] || !loop.Body[x] {
-							continue
-						}
-						if x == loop.Header {
-							back = true
-							continue
-						}
-						seen[x] = true
-						if handlerBlocks[x] {
-							handler = true
-						}
-						stack = append(stack, x.Succs...)
-					}
-					if back && !handler {
-						skips = true
-						skipIf = e.From
-					}
-				}
-				if !skips {
+			for _, in := range b.Instrs {
+				l, ok := in.(*ssa.Lookup)
+				if !ok || !l.CommaOk {
 					continue
 				}
-				n++
-				construct := fnName(upd) + "+skip-on-" + ix.fieldName(f)
-				switch {
-				case reset[f] == "prologue":
-					c.ok("D6", construct, l.Pos(), "entries found in %s bypass the handlers, and %s starts empty at every re-index: nothing is skipped across runs", ix.fieldName(f), ix.fieldName(f))
-				case len(resetWritten) == 0:
-					c.ok("D6", construct, l.Pos(), "entries found in %s bypass the handlers; no handler-written field is reset, so replaying them is not needed", ix.fieldName(f))
-				default:
-					// is the membership test alone enough to skip? (the test's block is reached from
-					// the lookup without any other branch)
-					pure := skipIf == l.Block()
-					for x := skipIf; !pure && x != nil && x != l.Block(); {
-						if len(x.Preds) != 1 {
-							break
-						}
-						p := x.Preds[0]
-						if p == l.Block() {
-							if _, isIf := p.Instrs[len(p.Instrs)-1].(*ssa.If); !isIf {
-								pure = true
+				f, _, _, ok := ix.rootField(l.X)
+				if !ok {
+					continue
+				}
+				if _, isCB := ix.cbFields[f]; isCB {
+					continue // the dispatch table, not a record of what was seen
+				}
+				for _, okv := range extractsOf(l, 1) {
+					ve := edgesOfVerdict(okv)
+					// does the "present" side get back to the loop header without running a handler?
+					// the "present" side goes back to the loop header and cannot run a handler on the way
+					skips := false
+					var skipIf *ssa.BasicBlock
+					for _, e := range ve.Accept {
+						seen := map[*ssa.BasicBlock]bool{}
+						stack := []*ssa.BasicBlock{e.To}
+						back, handler := false, false
+						for len(stack) > 0 {
+							x := stack[len(stack)-1]
+							stack = stack[:len(stack)-1]
+							if seen[x] || !sc.in(x) {
+								continue
 							}
-							break
+							if sc.fn == upd && sc.next(x) {
+								back = true
+								continue
+							}
+							seen[x] = true
+							if sc.handlers[x] {
+								handler = true
+							}
+							if sc.fn != upd && sc.next(x) {
+								back = true
+							}
+							stack = append(stack, x.Succs...)
 						}
-						if _, isIf := p.Instrs[len(p.Instrs)-1].(*ssa.If); isIf {
-							break
+						if back && !handler {
+							skips = true
+							skipIf = e.From
 						}
-						x = p
 					}
-					if pure {
-						c.fail("D6", construct, l.Pos(), "entries already recorded in %s bypass the handlers, but %s survives from one re-index to the next while {%s} are emptied before the scan: after the first run these fields are rebuilt from the new entries only", ix.fieldName(f), ix.fieldName(f), strings.Join(resetWritten, ","))
-					} else {
-						c.ok("D6", construct, l.Pos(), "entries recorded in %s bypass the handlers only together with a further condition; %s is not reset, the combination is not judged", ix.fieldName(f), ix.fieldName(f))
-						c.note("%s: skip on %s (never reset) is combined with another test; whether the skipped entries only feed never-reset fields is not decided", fnName(upd), ix.fieldName(f))
+					if !skips {
+						continue
+					}
+					n++
+					construct := fnName(sc.fn) + "+skip-on-" + ix.fieldName(f)
+					switch {
+					case reset[f] == "prologue":
+						c.ok("D6", construct, l.Pos(), "entries found in %s bypass the handlers, and %s starts empty at every re-index: nothing is skipped across runs", ix.fieldName(f), ix.fieldName(f))
+					case len(resetWritten) == 0:
+						c.ok("D6", construct, l.Pos(), "entries found in %s bypass the handlers; no handler-written field is reset, so replaying them is not needed", ix.fieldName(f))
+					default:
+						// is the membership test alone enough to skip? (the test's block is reached from
+						// the lookup without any other branch)
+						pure := skipIf == l.Block()
+						for x := skipIf; !pure && x != nil && x != l.Block(); {
+							if len(x.Preds) != 1 {
+								break
+							}
+							p := x.Preds[0]
+							if p == l.Block() {
+								if _, isIf := p.Instrs[len(p.Instrs)-1].(*ssa.If); !isIf {
+									pure = true
+								}
+								break
+							}
+							if _, isIf := p.Instrs[len(p.Instrs)-1].(*ssa.If); isIf {
+								break
+							}
+							x = p
+						}
+						if pure {
+							c.fail("D6", construct, l.Pos(), "entries already recorded in %s bypass the handlers, but %s survives from one re-index to the next while {%s} are emptied before the scan: after the first run these fields are rebuilt from the new entries only", ix.fieldName(f), ix.fieldName(f), strings.Join(resetWritten, ","))
+						} else {
+							c.ok("D6", construct, l.Pos(), "entries recorded in %s bypass the handlers only together with a further condition; %s is not reset, the combination is not judged", ix.fieldName(f), ix.fieldName(f))
+							c.note("%s: skip on %s (never reset) is combined with another test; whether the skipped entries only feed never-reset fields is not decided", fnName(upd), ix.fieldName(f))
+						}
 					}
 				}
 			}
